@@ -8,13 +8,15 @@
 EXTENDS Integers, Sequences, FiniteSets, TLC, Json
 CONSTANTS Depth, PeerHandleBase, Side     \* Side: "client" | "listener" (the endpoint accepts sessions and links the peer starts)
 
-VARIABLES script, att, s2, ended1, pdet
-vars == <<script, att, s2, ended1, pdet>>
-Init == script = <<>> /\ att = {} /\ s2 = FALSE /\ ended1 = FALSE /\ pdet = {}
+VARIABLES script, att, s2, ended1, pdet, s3
+vars == <<script, att, s2, ended1, pdet, s3>>
+Init == script = <<>> /\ att = {} /\ s2 = FALSE /\ ended1 = FALSE /\ pdet = {} /\ s3 = FALSE
 
 Ev == {"AttS1", "AttR2", "AttDup", "Refuse4", "DetS1", "CloseS1", "DropS1", "CloseR2", "PDetS1err", "PDetS1nc", "PCloseR2", "Send1", "SendDrop1", "SendDet1",
        "Beg2", "AttS3", "Send3", "End1", "End1err", "PEnd1", "PEnd1err", "End2", "SendEnd1", "PDetS1idle", "SendQEndErr1", "DropEndErr1",
-       "PDetS1close", "PDetS1drop"}
+       "PDetS1close", "PDetS1drop",
+       \* after the first session has ended the peer answers a new session on the same channel number (3): its frames belong to the new session
+       "Beg3", "AttS5", "Send5"}
 ClientOnly == {"AttDup", "Refuse4"}
 Enabled(e) ==
   (Side = "client" \/ e \notin ClientOnly) /\
@@ -25,6 +27,9 @@ Enabled(e) ==
     [] e \in {"DetS1", "CloseS1", "DropS1", "PDetS1err", "PDetS1nc", "PDetS1idle", "PDetS1close", "PDetS1drop", "Send1", "SendDrop1", "SendDet1"} -> ~ended1 /\ "L1" \in att /\ "L1" \notin pdet
     [] e \in {"CloseR2", "PCloseR2"} -> ~ended1 /\ "L2" \in att /\ "L2" \notin pdet
     [] e = "Beg2" -> ~s2
+    [] e = "Beg3" -> ended1 /\ ~s3
+    [] e = "AttS5" -> s3 /\ "L5" \notin att
+    [] e = "Send5" -> s3 /\ "L5" \in att
     [] e = "AttS3" -> s2 /\ "L3" \notin att
     [] e = "Send3" -> s2 /\ "L3" \in att
     [] e = "End2" -> s2
@@ -32,10 +37,11 @@ Enabled(e) ==
     [] e \in {"SendEnd1", "SendQEndErr1", "DropEndErr1"} -> ~ended1 /\ "L1" \in att /\ "L1" \notin pdet
 Step(e) ==
   /\ Len(script) < Depth /\ Enabled(e) /\ script' = Append(script, e)
-  /\ att' = CASE e = "AttS1" -> att \cup {"L1"} [] e = "AttR2" -> att \cup {"L2"} [] e = "AttS3" -> att \cup {"L3"}
+  /\ att' = CASE e = "AttS1" -> att \cup {"L1"} [] e = "AttR2" -> att \cup {"L2"} [] e = "AttS3" -> att \cup {"L3"} [] e = "AttS5" -> att \cup {"L5"}
               [] e \in {"DetS1", "CloseS1", "DropS1", "SendDrop1", "SendDet1", "PDetS1close", "PDetS1drop"} -> att \ {"L1"} [] e = "CloseR2" -> att \ {"L2"}
               [] e \in {"End1", "End1err", "PEnd1", "PEnd1err", "SendEnd1", "SendQEndErr1", "DropEndErr1"} -> att \ {"L1", "L2"} [] e = "End2" -> att \ {"L3"} [] OTHER -> att
   /\ s2' = IF e = "Beg2" THEN TRUE ELSE IF e = "End2" THEN FALSE ELSE s2
+  /\ s3' = (s3 \/ e = "Beg3")
   /\ ended1' = (ended1 \/ e \in {"End1", "End1err", "PEnd1", "PEnd1err", "SendEnd1", "SendQEndErr1", "DropEndErr1"})
   /\ pdet' = CASE e \in {"PDetS1err", "PDetS1nc", "PDetS1idle"} -> pdet \cup {"L1"} [] e = "PCloseR2" -> pdet \cup {"L2"} [] OTHER -> pdet
 Next == \E e \in Ev : Step(e)
@@ -82,6 +88,12 @@ Conc(e, m) ==
                              [e |-> "PFrame", perf |-> "begin", ch |-> 4, f |-> [rch |-> -1, noi |-> 0, iw |-> 1000, ow |-> 100]] >>
     [] e = "AttS3" -> Att("L3", "s2", 4, H(7), TRUE, [snd |-> 2, rcv |-> 0, idc |-> 0], [credit |-> 10]) \o << Credit(4, 1, H(7)) >>
     [] e = "Send3" -> << Send("L3", m, FALSE) >>
+    [] e = "Beg3" -> IF Side = "client" THEN << [e |-> "ABegin", s |-> "s3", cfg |-> [noi |-> 1000, iw |-> 100, ow |-> 100]],
+                                                [e |-> "PFrame", perf |-> "begin", ch |-> 3, f |-> [rch |-> [ref |-> "s3"], noi |-> 0, iw |-> 1000, ow |-> 100]] >>
+                     ELSE << [e |-> "AAcceptSession", s |-> "s3", cfg |-> [noi |-> 1000, iw |-> 100, ow |-> 100]],
+                             [e |-> "PFrame", perf |-> "begin", ch |-> 3, f |-> [rch |-> -1, noi |-> 0, iw |-> 1000, ow |-> 100]] >>
+    [] e = "AttS5" -> Att("L5", "s3", 3, H(9), TRUE, [snd |-> 2, rcv |-> 0, idc |-> 0], [credit |-> 10]) \o << Credit(3, 0, H(9)) >>
+    [] e = "Send5" -> << Send("L5", m, FALSE) >>
     [] e = "End1" -> << [e |-> "AEnd", s |-> "s1"], [e |-> "PFrame", perf |-> "end", ch |-> 3, f |-> [err |-> ""]] >>
     [] e = "End1err" -> << [e |-> "AEnd", s |-> "s1", err |-> "internal"], [e |-> "PFrame", perf |-> "end", ch |-> 3, f |-> [err |-> ""]] >>
     [] e = "SendEnd1" -> << Send("L1", m, FALSE), [e |-> "AEnd", s |-> "s1"], [e |-> "PFrame", perf |-> "end", ch |-> 3, f |-> [err |-> ""]] >>
